@@ -1,6 +1,179 @@
 import YaegiVerif.Common.Sexp
-/- Line-protocol front end for C13 (glue). Placeholder until the property's model exists. -/
+import YaegiVerif.Model.Restricted
+import YaegiVerif.Model.Env
+import YaegiVerif.Spec.OsEnv
+import YaegiVerif.Generated.C13
+/- Line-protocol front end for C13 (glue, not a proof obligation). Strings are byte strings: one Char per byte.
+
+   CFG = (unrestricted specialStdio stdinFile stdoutFile stderrFile)
+   keys SET…                               → (keys "path" …)            binPkg after Use(stdlib.Symbols) (+ gated sets)
+   import (SET…) FORM full dir base srcHas → y=bin|src|error
+   exit CFG fn pkg name | exit CFG method pkg name m | exit CFG flagset handling → y=panics|exits|returns|unknown
+   envsrc CFG name                         → y=virt|host|unknown
+   io CFG fn pkg name | io CFG builtin name | io CFG logger pkg name → y=<stream>
+   bind CFG pkg name                       → y=override|host|hostVar|hostType|const|loc|locType|other|absent
+   virt CFG                                → (virt "Setenv" …)
+   used (path base alt)…                   → (used ("name" "path") …)
+   env CFG (entry…) ((k v)…) OP…           → (y OUT…) (yv (k v)…) (yh (k v)…) (g OUT…) (gm (k v)…)
+     OP = (set k v) (unset k) (clear) (get k) (lookup k) (environ) (expand s) -/
 namespace YaegiVerif.Driver.C13
-open YaegiVerif
-def handle (_args : List Sexp) : String := "unimplemented"
+open YaegiVerif YaegiVerif.Restricted YaegiVerif.Spec.OsEnv
+
+def F : Facts := Generated.C13.facts
+
+private def hexDigit (n : Nat) : Char := if n < 10 then Char.ofNat (48 + n) else Char.ofNat (87 + n)
+
+/-- quote a byte string -/
+def qb (s : String) : String :=
+  "\"" ++ String.join (s.toList.map fun c =>
+    let n := c.toNat % 256
+    if n == 34 then "\\\"" else if n == 92 then "\\\\"
+    else if n < 32 || n > 126 then String.ofList ['\\', 'x', hexDigit (n / 16), hexDigit (n % 16)]
+    else String.ofList [c]) ++ "\""
+
+def parseCfg (s : Sexp) : Option Cfg :=
+  match s with
+  | .list [a, b, c, d, e] => do
+    some { unrestricted := ← a.bool?, specialStdio := ← b.bool?, stdinFile := ← c.bool?, stdoutFile := ← d.bool?,
+           stderrFile := ← e.bool? }
+  | _ => none
+
+def keysWith (sets : List String) : List Key :=
+  F.defaultKeys ++ (F.gated.filter (fun g => sets.contains g.1)).flatMap (·.2)
+
+def showOutcome : Outcome → String
+  | .panics => "panics" | .exits => "exits" | .returns => "returns" | .unknown => "unknown"
+
+def showStream : Stream → String
+  | .optStdout => "optStdout" | .optStderr => "optStderr" | .optStdin => "optStdin" | .hostStdout => "hostStdout"
+  | .hostStderr => "hostStderr" | .hostStdin => "hostStdin" | .args => "args" | .hostArgs => "hostArgs" | .hostFlag => "hostFlag" | .unknown => "unknown"
+
+def showEff : Eff → String
+  | .override _ => "override" | .absent => "absent"
+  | .table (.host ..) => "host" | .table (.hostVar ..) => "hostVar" | .table (.hostType ..) => "hostType"
+  | .table .const => "const" | .table (.loc _) => "loc" | .table (.locType _) => "locType" | .table (.other _) => "other"
+
+def parseForm (s : Sexp) : Option Form :=
+  match s with
+  | .atom "plain" => some .plain
+  | .atom "dot" => some .dot
+  | .atom "blank" => some .blank
+  | .list [.atom "named", .atom n] => some (.named n)
+  | _ => none
+
+def parseOp (s : Sexp) : Option Op :=
+  match s with
+  | .list [.atom "set", .atom k, .atom v] => some (.setenv k v)
+  | .list [.atom "unset", .atom k] => some (.unsetenv k)
+  | .list [.atom "clear"] => some .clearenv
+  | .list [.atom "get", .atom k] => some (.getenv k)
+  | .list [.atom "lookup", .atom k] => some (.lookupEnv k)
+  | .list [.atom "environ"] => some .environ
+  | .list [.atom "expand", .atom t] => some (.expandEnv t)
+  | _ => none
+
+def parsePair (s : Sexp) : Option (String × String) :=
+  match s with
+  | .list [.atom k, .atom v] => some (k, v)
+  | _ => none
+
+def showPairs (ps : List (String × String)) : String :=
+  " ".intercalate (ps.map fun p => "(" ++ qb p.1 ++ " " ++ qb p.2 ++ ")")
+
+def showOut : Out → String
+  | .unit => "(unit)"
+  | .err none => "(err nil)"
+  | .err (some e) => "(err " ++ qb e ++ ")"
+  | .str s => "(str " ++ qb s ++ ")"
+  | .strOk s ok => "(strok " ++ qb s ++ " " ++ (if ok then "1" else "0") ++ ")"
+  | .pairs ps => "(pairs " ++ showPairs ps ++ ")"
+
+/-- executable form of the map semantics: `Environ` enumerates the names that were ever mentioned -/
+def specStep (univ : List String) (m : EnvMap) (op : Op) : Out :=
+  match op with
+  | .setenv _ _ => .err none
+  | .unsetenv _ => .err none
+  | .clearenv => .unit
+  | .getenv k => .str (m.getD k)
+  | .lookupEnv k => .strOk (m.getD k) (m k).isSome
+  | .environ => .pairs (univ.filterMap fun k => (m k).map fun v => (k, v))
+  | .expandEnv s => .str (expandWith m s)
+
+def specRun (univ : List String) : EnvMap → List Op → List Out × EnvMap
+  | m, [] => ([], m)
+  | m, op :: ops =>
+    let o := specStep univ m op
+    let r := specRun univ (next m op) ops
+    (o :: r.1, r.2)
+
+def opKeys : Op → List String
+  | .setenv k _ => [k] | .unsetenv k => [k] | .getenv k => [k] | .lookupEnv k => [k] | _ => []
+
+def virtFns (c : Cfg) : List String := envFns.filter (envVirtual F c)
+
+def handle (args : List Sexp) : String :=
+  match args with
+  | .atom "keys" :: sets =>
+    (match sets.mapM Sexp.atom? with
+     | some ss => "(keys " ++ " ".intercalate ((binPkgOf (keysWith ss)).map qb) ++ ")"
+     | none => "bad-op")
+  | [.atom "import", sets, form, .atom full, .atom dir, .atom base, srcHas] =>
+    (match sets.atoms?, parseForm form, srcHas.bool? with
+     | some ss, some f, some sh =>
+       let r := importSpec (binPkgOf (keysWith ss)) (fun _ => sh) f ⟨full, dir, base⟩
+       "y=" ++ (match r with | .bin .. => "bin" | .src .. => "src" | .error _ => "error")
+     | _, _, _ => "bad-op")
+  | [.atom "exit", cfg, .atom "fn", .atom p, .atom n] =>
+    (match parseCfg cfg with
+     | some c => "y=" ++ showOutcome (exitOutcome F c (.fn p n))
+     | none => "bad-op")
+  | [.atom "exit", cfg, .atom "method", .atom p, .atom n, .atom m] =>
+    (match parseCfg cfg with
+     | some c => "y=" ++ showOutcome (exitOutcome F c (.method p n m))
+     | none => "bad-op")
+  | [.atom "exit", cfg, .atom "flagset", .atom h] =>
+    (match parseCfg cfg with
+     | some c => "y=" ++ showOutcome (exitOutcome F c (.flagSet h))
+     | none => "bad-op")
+  | [.atom "envsrc", cfg, .atom n] =>
+    (match parseCfg cfg with
+     | some c => "y=" ++ (match envSource F c n with | .virt => "virt" | .host => "host" | .unknown => "unknown")
+     | none => "bad-op")
+  | [.atom "io", cfg, .atom "fn", .atom p, .atom n] =>
+    (match parseCfg cfg with
+     | some c => "y=" ++ showStream (ioStream F c p n)
+     | none => "bad-op")
+  | [.atom "io", _, .atom "builtin", .atom n] => "y=" ++ showStream (builtinStream F n)
+  | [.atom "io", cfg, .atom "logger", .atom p, .atom n] =>
+    (match parseCfg cfg with
+     | some c => "y=" ++ showStream (loggerStream F c p n)
+     | none => "bad-op")
+  | [.atom "bind", cfg, .atom p, .atom n] =>
+    (match parseCfg cfg with
+     | some c => "y=" ++ showEff (effective F c p n)
+     | none => "bad-op")
+  | [.atom "virt", cfg] =>
+    (match parseCfg cfg with
+     | some c => "(virt " ++ " ".intercalate ((virtFns c).map qb) ++ ")"
+     | none => "bad-op")
+  | .atom "used" :: ks =>
+    (match ks.mapM (fun k => match k with
+        | .list [.atom p, .atom b, .atom a] => some (⟨p, b, a⟩ : UsedKey)
+        | _ => none) with
+     | some ks => "(used " ++ " ".intercalate ((importUsed ks).map fun s => "(" ++ qb s.name ++ " " ++ qb s.key.path ++ ")") ++ ")"
+     | none => "bad-op")
+  | .atom "env" :: cfg :: entries :: host :: ops =>
+    (match parseCfg cfg, entries.atoms?, host.list?.bind (·.mapM parsePair), ops.mapM parseOp with
+     | some c, some es, some hs, some ops =>
+       let s0 : Env.St := { host := hs, virt := Env.initVirt c.unrestricted es }
+       let r := Env.run (virtFns c) s0 ops
+       let m0 : EnvMap := ofEntries es
+       let univ := ((es.map fun e => String.ofList (splitEntry e.toList).1) ++ ops.flatMap opKeys).eraseDups
+       let g := specRun univ m0 ops
+       let gm := univ.filterMap fun k => (g.2 k).map fun v => (k, v)
+       "(y " ++ " ".intercalate (r.2.map showOut) ++ ") (yv " ++ showPairs r.1.virt ++ ") (yh " ++ showPairs r.1.host ++
+       ") (g " ++ " ".intercalate (g.1.map showOut) ++ ") (gm " ++ showPairs gm ++ ")"
+     | _, _, _, _ => "bad-op")
+  | _ => "bad-op"
+
 end YaegiVerif.Driver.C13
